@@ -233,8 +233,6 @@ def run(ctx):
         if r['status'] in ('unsupported', 'inconclusive'):
             inconclusive.append('%s: %s %s' % (r['status'], r.get('detail'), r.get('where', '')))
     inconclusive = sorted(set(inconclusive))
-    if summ.get('truncated'):
-        inconclusive.append('exploration truncated')
     covers = set()
     for r in recs:
         covers.update(r.get('covers', []))
